@@ -57,6 +57,9 @@ where
     ) -> Result<(), Error> {
         let mut frame = Frame::new();
         let mut ctrlc = CtrlC::new().unwrap();
+        // A request that could not be written because the child was
+        // gone, to be sent to its replacement.
+        let mut resend: Option<S::Req> = None;
 
         loop {
             let program = S::program()
@@ -87,11 +90,27 @@ where
             crate::verif::event("handshake_done", 0);
 
             loop {
-                let request = recv_request.recv().await?;
+                let (request, resent) = match resend.take() {
+                    Some(request) => (request, true),
+                    None => (recv_request.recv().await?, false),
+                };
 
-                frame
+                match frame
                     .write_async::<MessageRequest<S>, _>(Pin::new(&mut stdin), &request)
-                    .await?;
+                    .await
+                {
+                    // The child died while it was idle (e.g. it was
+                    // killed), so it never saw this request. Start a
+                    // new child and send the request to that one.
+                    Err(Error::WriteFailed(ref err))
+                        if !resent && err.kind() == ErrorKind::BrokenPipe =>
+                    {
+                        resend = Some(request);
+                        let _ = process.kill();
+                        break;
+                    }
+                    result => result?,
+                }
                 #[cfg(feature = "verif-hooks")]
                 crate::verif::event("request_written", 0);
 
